@@ -390,7 +390,12 @@ pub fn g_setup(w: &mut W, rng: &mut Rng, n_cases: u64) {
         w.watch(&gs, 0);
         let mode = c % 4;
         let mut steps = 0;
+        let mut total = 0;
         loop {
+            total += 1;
+            if total > 200 {
+                break;
+            }
             let acts = gs.valid_actions();
             if acts.is_empty() {
                 break;
@@ -840,6 +845,99 @@ pub fn g_result(w: &mut W, rng: &mut Rng, variants: u64) {
 }
 
 // ---------------------------------------------------------------------------------------
+// G-counts: the small integers the code can compute with - number of the mover's rabbits (0..8), number of the
+// mover's pieces that are NOT frozen (0..2), step of the turn (0..3) - as a full product, for both colours.  Rabbits
+// are placed frozen (next to an enemy officer, no friendly neighbour); the unfrozen pieces stand apart.
+
+pub fn g_counts(w: &mut W, rng: &mut Rng, variants: u64) {
+    for _ in 0..variants {
+        for r in 0..=8u64 {
+            for u in 0..=2u64 {
+                for step in 0..4u64 {
+                    let gold = rng.chance(1, 2);
+                    let mut cells: [Cell; 64] = [None; 64];
+                    let mut enemy_left: Vec<Piece> = vec![Piece::Cat, Piece::Cat, Piece::Dog, Piece::Dog, Piece::Horse, Piece::Horse, Piece::Camel, Piece::Elephant];
+                    let own_nbr = |cells: &[Cell; 64], sq: usize| nbrs(sq).iter().any(|j| matches!(cells[*j], Some((g, _)) if g == gold));
+                    let enemy_off_nbr = |cells: &[Cell; 64], sq: usize| nbrs(sq).iter().any(|j| matches!(cells[*j], Some((g, k)) if g != gold && k != Piece::Rabbit));
+                    let mut placed = 0;
+                    let mut tries = 0;
+                    while placed < r && tries < 400 {
+                        tries += 1;
+                        let row = 1 + rng.below(6) as usize;
+                        let sq = row * 8 + rng.below(8) as usize;
+                        if cells[sq].is_some() || TRAPS.contains(&sq) || own_nbr(&cells, sq) {
+                            continue;
+                        }
+                        if !enemy_off_nbr(&cells, sq) {
+                            // bring a freezer next to it, on a square that touches no other piece of the mover
+                            let spots: Vec<usize> = nbrs(sq).into_iter().filter(|j| cells[*j].is_none() && !TRAPS.contains(j)).collect();
+                            if spots.is_empty() || enemy_left.is_empty() {
+                                continue;
+                            }
+                            let f = spots[rng.below(spots.len() as u64) as usize];
+                            let k = enemy_left.pop().unwrap();
+                            cells[f] = Some((!gold, k));
+                        }
+                        cells[sq] = Some((gold, Piece::Rabbit));
+                        placed += 1;
+                    }
+                    // unfrozen pieces of the mover: officers away from every enemy officer
+                    let kinds_u = [Piece::Dog, Piece::Horse];
+                    let mut pu = 0;
+                    tries = 0;
+                    while pu < u && tries < 400 {
+                        tries += 1;
+                        let sq = rng.below(64) as usize;
+                        if cells[sq].is_some() || TRAPS.contains(&sq) || enemy_off_nbr(&cells, sq) || own_nbr(&cells, sq) {
+                            continue;
+                        }
+                        // it must not unfreeze a rabbit (no own neighbour) - checked by own_nbr above, symmetric
+                        cells[sq] = Some((gold, kinds_u[pu as usize % 2]));
+                        pu += 1;
+                    }
+                    // the enemy keeps a rabbit
+                    for sqr in [8 + 7usize, 6 * 8, 8, 6 * 8 + 7] {
+                        if cells[sqr].is_none() && !own_nbr(&cells, sqr) {
+                            cells[sqr] = Some((!gold, Piece::Rabbit));
+                            break;
+                        }
+                    }
+                    legalize(&mut cells);
+                    let status = if step >= 1 && rng.chance(1, 2) { fit_status(&cells, gold, step, rng) } else { (0, 0, 0) };
+                    let wds = words_of(&cells);
+                    let chain = backward_chain(&cells, gold, step, status, rng);
+                    let prevw: Vec<[u64; 7]> = chain.iter().map(words_of).collect();
+                    let h0 = if step == 0 { hash_of(&cells, gold) } else { hash_of(&chain[0], gold) };
+                    let mv = 2 + rng.below(5);
+                    w.begin("counts");
+                    let gs = match w.init_built(wds, gold, mv, step, status, false, h0, &prevw, &[h0]) {
+                        Some(g) => g,
+                        None => {
+                            w.end();
+                            continue;
+                        }
+                    };
+                    w.watch(&gs, 0);
+                    let unfrozen = (0..64).filter(|i| matches!(cells[*i], Some((g, _)) if g == gold) && !is_frozen(&cells, *i)).count();
+                    w.stat(&format!("counts.rabbits{}.unfrozen{}.step{}", placed, unfrozen.min(4), step), 1);
+                    let acts = catch_unwind(AssertUnwindSafe(|| gs.valid_actions_no_rep())).unwrap_or_default();
+                    w.end();
+                    for a in acts.iter().take(6) {
+                        w.begin("counts");
+                        if let Some(g2) = w.init_built(wds, gold, mv, step, status, false, h0, &prevw, &[h0]) {
+                            if let Some(nx) = w.act(&g2, a) {
+                                w.watch(&nx, 0);
+                            }
+                        }
+                        w.end();
+                    }
+                }
+            }
+        }
+    }
+}
+
+// ---------------------------------------------------------------------------------------
 // G-seek: repetition seeker.  Tiny interacting material; at every turn start the whole turn tree (through the
 // rule-only lists) is searched for turns that re-create a position already seen at a turn start of the case -
 // restoring what the opponent just did by a push or pull, or shuttling - and such a turn is played with high
@@ -961,7 +1059,14 @@ pub fn g_seek(w: &mut W, rng: &mut Rng, n_cases: u64, turns: u64) {
                         continue 'game;
                     }
                     // finish the turn with a pass if possible, else random offered actions
+                    let mut guard = 0;
                     while gs.is_p1_turn_to_move() == side {
+                        guard += 1;
+                        if guard > 8 {
+                            // a turn has at most four steps: whatever keeps the same side on move longer is reported by
+                            // the comparison of the states just written; the generator must not hang on it
+                            break 'game;
+                        }
                         w.watch(&gs, 0);
                         let acts = gs.valid_actions();
                         if acts.is_empty() {
